@@ -231,6 +231,38 @@ func (a *c07Actor) Receive(ctx *ReceiveContext) {
 	}
 }
 
+// c07LogRing keeps the last warning/error lines the runtime logged, so that a
+// violation the harness cannot explain from its own observations (the actor
+// system going down) carries the runtime's own account.
+type c07LogRing struct {
+	mu    sync.Mutex
+	lines []string
+}
+
+func (l *c07LogRing) Write(p []byte) (int, error) {
+	l.mu.Lock()
+	for _, ln := range strings.Split(strings.TrimRight(string(p), "\n"), "\n") {
+		if (strings.Contains(ln, "failing: err=") || strings.Contains(ln, "restart budget exhausted")) && !strings.Contains(ln, "GoAkt") {
+			continue // one per injected fault: noise here
+		}
+		if len(ln) > 400 {
+			ln = ln[:400]
+		}
+		l.lines = append(l.lines, ln)
+	}
+	if len(l.lines) > 80 {
+		l.lines = append([]string(nil), l.lines[len(l.lines)-80:]...)
+	}
+	l.mu.Unlock()
+	return len(p), nil
+}
+
+func (l *c07LogRing) tail() []string {
+	l.mu.Lock()
+	defer l.mu.Unlock()
+	return append([]string(nil), l.lines...)
+}
+
 type c07FenceActor struct{}
 
 func (*c07FenceActor) PreStart(*Context) error { return nil }
@@ -786,6 +818,11 @@ func (c *c07Case) Key() string {
 	return sb.String()
 }
 
+type c07SoftViolation struct {
+	Sig    string
+	Detail map[string]any
+}
+
 type c07CaseResult struct {
 	Sig        string
 	Detail     map[string]any
@@ -800,7 +837,8 @@ type c07CaseResult struct {
 	Exhausted  int
 	Chains     int
 	BothRules  bool // a lookup was decided while a typed and an any-error rule were both in force
-	Fatal      bool // the batch cannot go on
+	Soft       []c07SoftViolation // violations after which the case continued
+	Fatal      bool               // the batch cannot go on
 	CutAmbig   bool
 	OneForAllN int // steps under one-for-all with >= 1 sibling
 	History    []string
@@ -812,6 +850,7 @@ type c07Env struct {
 	sys   *actorSystem
 	fence *PID
 	drain func(prefix string, into c07Events)
+	logTail func() []string
 }
 
 func c07Role(target, n *c07Node) string {
@@ -850,7 +889,7 @@ func c07RunCase(env *c07Env, c *c07Case, rng *rand.Rand) (res c07CaseResult) {
 		if !env.sys.Running() {
 			// nothing in these scripts may take the whole actor system down
 			res.Sig = "system:stopped-while-supervising-user-actors"
-			res.Detail = map[string]any{"spawn_error": err.Error(), "case": c.Key()}
+			res.Detail = map[string]any{"spawn_error": err.Error(), "case": c.Key(), "runtime_warnings_tail": env.logTail()}
 			res.Fatal = true
 			return
 		}
@@ -940,6 +979,13 @@ func c07RunCase(env *c07Env, c *c07Case, rng *rand.Rand) (res c07CaseResult) {
 		if orphan != "" {
 			d["would_be_signature"] = sig
 			sig = "actor-tree:live-child-lost-parent-link:" + orphan
+		}
+		if env.sys.isStopping() || !env.sys.Running() {
+			// whatever was observed, it was observed on a system that is going down
+			d["would_be_signature"] = sig
+			d["runtime_warnings_tail"] = env.logTail()
+			sig = "system:stopped-while-supervising-user-actors"
+			res.Fatal = true
 		}
 		res.Sig = sig
 		d["config_children"] = c.ChildCfg.String()
@@ -1256,8 +1302,14 @@ func c07RunCase(env *c07Env, c *c07Case, rng *rand.Rand) (res c07CaseResult) {
 				}
 				if b.restarts <= a.restarts {
 					// signature without the directive label: the same defect shows up in chained steps too
-					fail(fmt.Sprintf("restart-count:not-bumped:%s:%s", exp.strategy, x.role), detail(n, map[string]any{"restart_count_before": a.restarts, "restart_count_after": b.restarts}))
-					return
+					// reported, but the case goes on: this one must not hide what
+					// later restarts of the same group do
+					if len(res.Soft) == 0 {
+						d := detail(n, map[string]any{"restart_count_before": a.restarts, "restart_count_after": b.restarts})
+						d["config_children"] = c.ChildCfg.String()
+						d["history"] = append([]string(nil), res.History...)
+						res.Soft = append(res.Soft, c07SoftViolation{fmt.Sprintf("restart-count:not-bumped:%s:%s", exp.strategy, x.role), d})
+					}
 				}
 			case x.untouched:
 				if b.prestarts != a.prestarts || b.attempts != a.attempts {
@@ -1394,9 +1446,10 @@ func TestVerif_C07(t *testing.T) {
 	r.Assume("one FIFO supervision consumer per system: a later failure of a fence actor being acted upon implies earlier failures were acted upon (quiescence only)")
 	r.Assume("a restart that the parent has dispatched completes within 20s (normal: milliseconds); after that a still-suspended actor counts as not restarted")
 
-	var sysOpts []Option
+	ring := &c07LogRing{}
+	sysOpts := []Option{WithLogger(log.NewZap(log.WarningLevel, ring))}
 	if os.Getenv("C07_DEBUG") != "" {
-		sysOpts = append(sysOpts, WithLogger(log.NewZap(log.WarningLevel, os.Stderr)))
+		sysOpts = []Option{WithLogger(log.NewZap(log.WarningLevel, os.Stderr))}
 	}
 	sys := vfNewSystem(t, sysOpts...)
 	defer vfStop(sys)
@@ -1409,7 +1462,7 @@ func TestVerif_C07(t *testing.T) {
 		t.Fatalf("spawn fence: %v", err)
 	}
 	var evSeen int64
-	env := &c07Env{t: t, sys: sys, fence: fence}
+	env := &c07Env{t: t, sys: sys, fence: fence, logTail: ring.tail}
 	env.drain = func(prefix string, into c07Events) {
 		for m := range sub.Iterator() {
 			var path Path
@@ -1442,7 +1495,22 @@ func TestVerif_C07(t *testing.T) {
 	n := r.N(400, 4000)
 	for i := 0; i < n; i++ {
 		c := c07GenCase(rng, i)
+		// one case in three runs with a few hot delay sites in the actor tree /
+		// death watch / supervision paths (the bookkeeping that runs beside the directives)
+		noisy := rng.Intn(3) == 0
+		if noisy {
+			verifrt.StartNoise(verifrt.NoiseConfig{
+				Seed: rng.Int63(), GoschedPerMille: 10, HotSites: 2,
+				Candidates:  vfNoiseSites("pid_tree.go", "death_watch.go", "supervision.go"),
+				HotPerMille: 300, MinDelay: 5 * time.Millisecond, MaxDelay: 30 * time.Millisecond, Budget: 12,
+			})
+		}
 		res := c07RunCase(env, c, rng)
+		if noisy {
+			_, delays := verifrt.StopNoise()
+			r.Count("noise_delays_injected", delays)
+			r.Count("cases_with_noise", 1)
+		}
 		r.Case(c.Key(), res.Steps >= 2 && len(res.Outcomes) >= 2)
 		r.Count("faults_judged", int64(res.Steps))
 		r.Count("restarts_checked", int64(res.Restarts))
@@ -1461,6 +1529,9 @@ func TestVerif_C07(t *testing.T) {
 		}
 		if res.Inconcl != "" {
 			r.Inconclusive("case %d: %s", i, res.Inconcl)
+		}
+		for _, sv := range res.Soft {
+			r.Violation(sv.Sig, sv.Detail)
 		}
 		if res.Sig != "" {
 			r.Violation(res.Sig, res.Detail)
